@@ -501,7 +501,7 @@ pub fn make_sparse(bytes: &[u8], hole: u64) -> Option<(Vec<u8>, u64)> {
 pub fn open_cursor_sparse(tx: &mut Tx, bytes: Vec<u8>, hole: Option<u64>) -> Option<ReaderCursor<SimFile>> {
     let Some(h) = hole else { return open_cursor(tx, bytes) };
     let Some((b, at)) = make_sparse(&bytes, h) else { return open_cursor(tx, bytes) };
-    let src = tx.env.new_sparse_source(b, at, h);
+    let src = tx.env.new_holed_source(b, at, h);
     let r = tx.call("Reader::new", move || match Reader::new(src) {
         Ok(r) => {
             let meta = Res::Meta {
@@ -1067,4 +1067,47 @@ pub fn guarded(tx: &mut Tx, body: impl FnOnce(&mut Tx)) {
 #[allow(dead_code)]
 pub fn kind_name(k: IoKind) -> &'static str {
     k.name()
+}
+
+// -----------------------------------------------------------------------------------------
+// files beyond 4 GiB (sparse sink and source)
+
+pub struct BigOut {
+    /// logical offset at which the block holding entry i started (one block per entry)
+    pub block_starts: Vec<u64>,
+    pub data: std::rc::Rc<std::cell::RefCell<crate::env::SparseData>>,
+    pub keys: Vec<Vec<u8>>,
+    pub small_from: usize,
+}
+
+/// Writes `fillers` entries whose values are `filler_len` bytes (their block bodies become holes),
+/// then `small` entries with 8-byte values, through the real writer into a sparse sink.
+pub fn exec_big_write(tx: &mut Tx, knobs: &Knobs, fillers: u32, filler_len: u32, small: u32) -> Option<BigOut> {
+    let (sink, data) = tx.env.new_sparse_sink();
+    let mut w = builder_of(knobs).build(sink);
+    let filler = vec![0x5Au8; filler_len as usize];
+    let mut block_starts = Vec::new();
+    let mut keys = Vec::new();
+    let total = fillers + small;
+    tx.lean = true;
+    for i in 0..total {
+        let key = (i as u64 * 3 + 1).to_be_bytes().to_vec();
+        let is_filler = i < fillers;
+        tx.env.0.borrow_mut().hole_big_writes = is_filler;
+        block_starts.push(data.borrow().len);
+        let val: &[u8] = if is_filler { &filler } else { &key };
+        let r = tx.call("Writer::insert", || match w.insert(&key, val) {
+            Ok(()) => Ok(((), Res::Unit)),
+            Err(e) => Err(desc_io(&e, "io::Error")),
+        });
+        keys.push(key);
+        r?;
+    }
+    tx.env.0.borrow_mut().hole_big_writes = false;
+    tx.call("Writer::finish", move || match w.finish() {
+        Ok(()) => Ok(((), Res::Unit)),
+        Err(e) => Err(desc_io(&e, "io::Error")),
+    })?;
+    tx.lean = false;
+    Some(BigOut { block_starts, data, keys, small_from: fillers as usize })
 }
